@@ -52,7 +52,7 @@ def run(ctx):
               "training points; the given array); (b) KKT certificate of the returned M (M^-1 by exact Gauss-Jordan, residual "
               "tolerance 5e-3 max|S|); (c) M SPD; (d) no objective decrease along +-eps coordinate directions; failure "
               "clause: a non-PD input ends in RuntimeError or a certified-SPD M.")
-  ctx.trusted = ["Coq 8.16.1 kernel + vm_compute", "model Model/SDML.v", "oracle: scikit-learn graphical lasso (certified per run)",
+  ctx.trusted = ["translator tools/translate_sdml.py + tools/pynum.py / Base/NPNum.v (solver input, raising condition), text pins (_BaseSDML._fit, _pseudo_inverse_from_eig)", "Coq 8.16.1 kernel + vm_compute", "model Model/SDML.v", "oracle: scikit-learn graphical lasso (certified per run)",
                  "concavity of logdet (stationary => optimal) not mechanised"]
   ok = ctx.build_property(gen_needed=['Src_sdml'])
   terms, recs = [], []
